@@ -208,7 +208,8 @@ fn rel_shape(a: Kind, an: usize, b: Kind, bn: usize) -> Vec<(usize, usize)> {
 }
 fn back_shape(a: Kind, b: Kind) -> Vec<usize> {
     match (a, b) {
-        (Kind::Bin, _) | (_, Kind::Bin) => vec![],
+        (Kind::Bin, _) => vec![0],
+        (_, Kind::Bin) => vec![],
         (Kind::Rgb, Kind::Rgb) => vec![0, 1, 2],
         (Kind::Rgb, _) => vec![],
         _ => vec![0],
